@@ -113,7 +113,7 @@ pub fn make_config(profile: &str, run_seed: u64, tier_thorough: bool) -> Config 
     let many = !big && rng.chance(1, 300);
     // One run in 8000 works on a huge world: more identifier slots than fit in 16 bits.
     let huge = !big && !many && g::NC > 0 && rng.chance(1, 8000);
-    let len = if huge { len.min(6) } else if big || many { len.min(10) } else { len };
+    let len = if huge { len.min(4) } else if big || many { len.min(10) } else { len };
     Config {
         profile: profile.to_string(),
         nslots,
@@ -230,7 +230,7 @@ pub fn gen_op(rng: &mut Rng, cfg: &Config, class: usize, out: &mut Vec<Op>) {
         "reserve" => out.push(Op::Reserve {
             slot,
             site: rng.below(g::RESERVE_SITES.len() as u64) as u16,
-            n: *rng.pick(&[0u16, 1, 1, 3, 17, 200]),
+            n: *rng.pick(&[0u16, 1, 1, 3, 17, 200, 65535]),
         }),
         "shrink" => out.push(Op::Shrink { slot }),
         "clone" => {
@@ -321,14 +321,38 @@ pub fn gen_history(cfg: &Config, run_seed: u64) -> Vec<Op> {
         // a few removals, and a round trip in a token encoding.
         let sites: Vec<usize> = (0..g::EXTEND_SITES.len()).filter(|s| g::EXTEND_SITES[*s].1.len() == 1).collect();
         if !sites.is_empty() {
-            for _ in 0..2 {
-                out.push(Op::Extend { slot: 0, how: 0, site: sites[rng.usize_below(sites.len())] as u16, n: rng.range(33000, 40000) as u16, extra: 0, seed: rng.next_u64() });
+            // 66 000 - 80 000 slots, or (one in three) 196 605: beyond 16 bits resp. beyond 2^17.
+            if rng.chance(1, 3) {
+                for _ in 0..3 {
+                    out.push(Op::Extend { slot: 0, how: 0, site: sites[rng.usize_below(sites.len())] as u16, n: 65535, extra: 0, seed: rng.next_u64() });
+                }
+            } else {
+                for _ in 0..2 {
+                    out.push(Op::Extend { slot: 0, how: 0, site: sites[rng.usize_below(sites.len())] as u16, n: rng.range(33000, 40000) as u16, extra: 0, seed: rng.next_u64() });
+                }
             }
             for _ in 0..rng.range(0, 3) {
                 out.push(Op::Remove { slot: 0, pick: pick_live(&mut rng) });
             }
             let dst = if cfg.nslots >= 2 && rng.chance(1, 2) { 1 } else { 0 };
-            out.push(Op::RoundTrip { src: 0, dst, enc: *rng.pick(&[0u8, 1, 3]), in_place: false });
+            match rng.below(3) {
+                0 => out.push(Op::RoundTrip { src: 0, dst, enc: *rng.pick(&[0u8, 1, 3]), in_place: false }),
+                1 => {
+                    // Everything released at once, storage given back, slots used again.
+                    out.push(Op::Clear { slot: 0 });
+                    out.push(Op::Shrink { slot: 0 });
+                    out.push(Op::Insert { slot: 0, site: rng.below(g::INSERT_SITES.len() as u64) as u16, seed: rng.next_u64() });
+                }
+                _ => {
+                    // A copy of a world that is mostly released slots.
+                    out.push(Op::Clear { slot: 0 });
+                    out.push(Op::Insert { slot: 0, site: rng.below(g::INSERT_SITES.len() as u64) as u16, seed: rng.next_u64() });
+                    if cfg.nslots >= 2 {
+                        out.push(Op::Clone { src: 0, dst: 1 });
+                        out.push(Op::Lockstep { a: 0, b: 1, on: true });
+                    }
+                }
+            }
             prefix = out.len();
         }
     }
@@ -336,7 +360,7 @@ pub fn gen_history(cfg: &Config, run_seed: u64) -> Vec<Op> {
         // A crowded world: one entity of each of 66..=128 distinct shapes (the archetype table
         // itself grows and rehashes; thresholds on the number of tables are crossed). With a
         // second world, a sparse one is then copied over the crowded one.
-        let n = rng.range(66, 128.min(g::INSERT_SITES.len() as u64 - 1)) as usize;
+        let n = rng.range(66, 185.min(g::INSERT_SITES.len() as u64 - 1)) as usize;
         let mut sites: Vec<u16> = (0..g::INSERT_SITES.len() as u16).collect();
         for i in 0..n {
             let j = i + rng.usize_below(sites.len() - i);
